@@ -206,3 +206,980 @@ def translate():
     L.append('')
     L.append('end Atomman.Gen.Log')
     return {'LogTriggers': '\n'.join(L) + '\n'}
+
+
+# ----------------------------------------------------------------------------------------
+# log synthesis: the Python twin of `renderLog` (lean/Atomman/C19.lean)
+# ----------------------------------------------------------------------------------------
+THEOREMS = []
+PARTIAL = {}
+RULE = ''
+ASSUMPTIONS = []
+TRUSTED = []
+
+MONTHS = ['Jan', 'Feb', 'Mar', 'Apr', 'May', 'Jun', 'Jul', 'Aug', 'Sep', 'Oct', 'Nov', 'Dec']
+INT_KEYS = ['Atoms', 'Elapsed', 'Elaplong', 'Bonds', 'Angles', 'v_count', 'c_nn', 'Nbuild', 'Ndanger']
+FLOAT_KEYS = ['Temp', 'Press', 'PotEng', 'KinEng', 'TotEng', 'E_pair', 'E_mol', 'E_vdwl', 'E_coul', 'Volume',
+              'Lx', 'Ly', 'Lz', 'Xy', 'Pxx', 'Pyy', 'Pzz', 'Pxy', 'c_pe', 'c_msd[4]', 'v_strain', 'f_ave[1]',
+              'CPU', 'Density', 'Enthalpy', 'Fmax', 'Fnorm', 'v_Loop', 'Time', 'Dt']
+PREAMBLE = ['units metal', 'atom_style atomic', 'boundary p p p', 'read_data init.dat',
+            '  orthogonal box = (0 0 0) to (4.05 4.05 4.05)', '  1 by 1 by 1 MPI processor grid', '  4 atoms',
+            'pair_style eam/alloy', 'pair_coeff * * Al.eam.alloy Al', 'mass 1 26.98', 'thermo 10',
+            'thermo_style custom step temp pe press', 'variable a equal 1.0', 'print "a = ${a}"',
+            "# it's a comment", '# Ångström units', 'timestep 0.001', 'fix 1 all nve',
+            'WARNING: No fixes with time integration, atoms won\'t move (src/verlet.cpp:60)',
+            'WARNING: Using a manybody potential with bonds/angles/dihedrals and special_bond exclusions '
+            '(src/pair.cpp:242)', '  using 1 OpenMP thread(s) per MPI task', 'Reading data file ...',
+            'velocity all create 300.0 12345', 'reset_timestep 0', 'dump 1 all custom 100 dump.* id x y z']
+SETUP = ['Setting up Verlet run ...', '  Unit style    : metal', '  Current step  : 0', '  Time step     : 0.001',
+         'Neighbor list info ...', '  update every 1 steps, delay 10 steps, check yes',
+         '  max neighbors/atom: 2000, page size: 100000', '  master list distance cutoff = 8.28721',
+         '  ghost atom cutoff = 8.28721', '  binsize = 4.1436, bins = 1 1 1',
+         'WARNING: Inconsistent image flags (src/domain.cpp:815)', 'Setting up cg style minimization ...',
+         '  (1) pair eam/alloy, perpetual', '      attributes: half, newton on']
+POST_PERF = ['Performance: 7022.440 ns/day, 0.003 hours/ns, 8128.287 timesteps/s',
+             '99.1% CPU use with 1 MPI tasks x no OpenMP threads',
+             '99.1% CPU use with 1 MPI tasks x 1 OpenMP threads']
+POST_MIN = ['Minimization stats:', '  Stopping criterion = energy tolerance',
+            '  Energy initial, next-to-last, final = ', '    -13.4399999527351  -13.4399999527351  -13.4399999527351',
+            '  Force two-norm initial, final = 2.5e-14 2.5e-14', '  Force max component initial, final = 6.9e-15 6.9e-15',
+            '  Final line search alpha, max atom move = 1 6.9e-15', '  Iterations, force evaluations = 1 2']
+POST_HIST = ['Histogram: 1 0 0 0 0 0 0 0 0 0', 'Nghost:    662 ave 662 max 662 min', 'Histogram: 1 0 0 0 0 0 0 0 0 0',
+             'Neighs:    312 ave 312 max 312 min', 'Histogram: 1 0 0 0 0 0 0 0 0 0', 'FullNghs:  624 ave 624 max 624 min']
+POST_END = ['Total # of neighbors = 312', 'Ave neighs/atom = 78', 'Neighbor list builds = 0', 'Dangerous builds = 0',
+            'run 100', 'minimize 1e-8 1e-8 100 1000', 'unfix 1', 'WARNING: New thermo_style command, previous '
+            'thermo_modify settings will be lost (src/output.cpp:903)', 'print "done"', 'write_restart final.restart',
+            'System init for write_restart ...']
+BLANKS = ['', '', '', ' ', '   ', '\t', ' \t ']
+INSIDE_WARN = ['WARNING: foo', 'WARNING:', 'ERROR on proc 0:', 'WARNING: Bond/angle/dihedral extent > half of periodic box length (src/domain.cpp:936)',
+               'WARNING: Too many warnings: 101 vs 100. All future warnings will be suppressed (src/thermo.cpp:460)']
+
+
+def _float_token(rng: random.Random) -> str:
+    k = rng.randrange(12)
+    if k == 0:
+        return '0'
+    if k == 1:
+        return str(rng.randint(-500, 500))
+    if k in (2, 3):            # dyadic: exactly representable
+        b = rng.randint(1, 8)
+        f = Fraction(rng.randint(-(1 << 14), 1 << 14), 1 << b)
+        s = '%.10f' % float(f)
+        return s.rstrip('0').rstrip('.') if rng.random() < 0.7 else s
+    if k in (4, 5):            # fixed decimals
+        return '%s%d.%s' % (rng.choice(['', '-']), rng.randint(0, 99999),
+                             ''.join(rng.choice('0123456789') for _ in range(rng.randint(1, 9))))
+    if k in (6, 7):            # %.8g style
+        return '%.8g' % (rng.uniform(-1, 1) * 10 ** rng.randint(-8, 8))
+    if k == 8:                 # scientific
+        return '%s%d.%de%s%02d' % (rng.choice(['', '-']), rng.randint(1, 9), rng.randint(0, 9999),
+                                    rng.choice(['+', '-']), rng.randint(0, 30))
+    if k == 9:                 # 15-17 significant digits
+        return repr(rng.uniform(-1e3, 1e3))
+    if k == 10:
+        return '%.15g' % (rng.uniform(-1, 1) * 10 ** rng.randint(-20, 20))
+    return rng.choice(['nan', '-nan', 'inf', '-inf', '1e-300', '1.7976931348623157e+308', '-0', '0.0', '-0.0'])
+
+
+def _pad(rng, style, tok, first):
+    """padding in front of a token."""
+    if style == 'single':
+        return '' if first else ' '
+    if style == 'old':       # %8d %12.8g like
+        w = rng.choice([6, 8, 12])
+        return ('' if first else ' ') + ' ' * max(0, w - len(tok))
+    if style == 'new':       # right aligned wide fields
+        w = rng.choice([10, 14])
+        return (' ' * 3 if first else ' ') + ' ' * max(0, w - len(tok))
+    if style == 'tab':
+        return ('' if first else '\t')
+    return ('' if first and rng.random() < 0.5 else ' ' * rng.randint(1, 4))
+
+
+def render_cells(rng, style, toks):
+    out = []
+    for k, t in enumerate(toks):
+        out.append(_pad(rng, style, t, k == 0) + t)
+    trail = rng.choice(['', '', ' ', '  ']) if style != 'single' else rng.choice(['', ' '])
+    return ''.join(out) + trail
+
+
+class RunSpec:
+    """one run: keywords, typed columns, rows of printed tokens, layout options."""
+    __slots__ = ('banner', 'cols', 'kinds', 'rows', 'complete', 'style', 'breakdown', 'hist', 'minimize',
+                 'inside', 'gap', 'blank_in_body')
+
+    def steps(self):
+        if 'Step' not in self.cols:
+            return None
+        k = self.cols.index('Step')
+        return [int(r[k]) for r in self.rows]
+
+
+def gen_run(rng, start, size, allow_dirty, era):
+    r = RunSpec()
+    r.banner = era[0]
+    ncols = rng.randint(1, 9)
+    keys = []
+    pool = INT_KEYS + FLOAT_KEYS
+    while len(keys) < ncols:
+        k = rng.choice(pool)
+        if k not in keys:
+            keys.append(k)
+    p = rng.random()
+    if p < 0.9:
+        keys[0] = 'Step'
+    elif p < 0.97:
+        keys[rng.randrange(len(keys))] = 'Step'
+    r.cols = keys
+    r.kinds = ['int' if (k in INT_KEYS or k == 'Step') else 'float' for k in keys]
+    n = rng.choice([0, 1, 1, 2, 2, 3, 4, 5, 6, 8, 11])
+    if size == 'big':
+        n = rng.randint(20, 80)
+    dt = rng.choice([1, 5, 10, 10, 50, 100, 100, 1000, 250000])
+    rows = []
+    for j in range(n):
+        row = []
+        for k, kind in zip(keys, r.kinds):
+            if k == 'Step':
+                row.append(str(start + j * dt))
+            elif kind == 'int':
+                row.append(str(rng.choice([0, 1, 4, 32, 108, 4000, rng.randint(-5, 10 ** 9)])))
+            else:
+                row.append(_float_token(rng))
+        rows.append(row)
+    r.rows = rows
+    r.complete = True
+    r.style = rng.choice(['single', 'old', 'new', 'new', 'tab', 'rand'])
+    r.breakdown = rng.choice([era[1], era[1], 'none', 'none-nohist'])
+    r.minimize = rng.random() < 0.25
+    r.gap = rng.choice([0, 0, 0, 1, 2])
+    r.blank_in_body = rng.random() < 0.15
+    r.inside = []
+    if allow_dirty and n > 0 and rng.random() < 0.5:
+        pos, w = rng.randint(0, n), rng.choice(INSIDE_WARN)
+        # a first data line wider than the header makes pandas invent index columns (not modelled): keep
+        # over-wide lines away from the first position, where pandas rejects them (ParserError) like the model
+        if pos == 0 and len(w.split()) > ncols:
+            w = 'WARNING:'
+        r.inside = [(pos, w)]
+    return r, dt
+
+
+def breakdown_lines(rng, kind):
+    if kind == 'new':
+        full = rng.random() < 0.3
+        hdr = 'Section |  min time  |  avg time  |  max time  |%varavg|' + ('  %CPU | %total' if full else ' %total')
+        L = ['MPI task timing breakdown:', hdr, '-' * len(hdr)]
+        for name in ['Pair', 'Bond', 'Neigh', 'Comm', 'Output', 'Modify'][:rng.randint(1, 6)] + ['Other']:
+            t = '%.5g' % rng.uniform(0, 2)
+            if name == 'Other':
+                cells = ['', t, '', '']
+            else:
+                cells = [t, t, t, '%.1f' % rng.uniform(0, 9)]
+            if full:
+                cells.append('' if name == 'Other' else '%.1f' % rng.uniform(50, 100))
+            cells.append('%.2f' % rng.uniform(0, 100))
+            L.append('%-7s ' % name + '|' + '|'.join(' %-10s ' % c for c in cells[:-1]) + '| ' + cells[-1].rjust(5))
+        return L
+    if kind == 'old':
+        L = []
+        for name in ['Pair ', 'Bond ', 'Neigh', 'Comm ', 'Outpt', 'Other']:
+            L.append('%s time (%%) = %.6g (%.4g)' % (name, rng.uniform(0, 3), rng.uniform(0, 100)))
+        return L
+    return []
+
+
+def _noise(rng, pool, lo, hi):
+    out = []
+    for _ in range(rng.randint(lo, hi)):
+        out.append(rng.choice(pool) if rng.random() < 0.75 else rng.choice(BLANKS))
+    return out
+
+
+class LogSpec:
+    """a synthesised log: version line, preamble, runs, layout choices, and the rendered lines."""
+
+    def __init__(self):
+        self.version = None      # (day, month index 1..12, year, suffix) or None
+        self.runs = []
+        self.lines = []
+        self.eol = '\n'
+        self.final_eol = True
+        self.dirty = False       # WARNING/ERROR lines inside a thermo block
+
+    @property
+    def version_string(self):
+        if self.version is None:
+            return None
+        d, m, y, suf = self.version
+        return f'{d} {MONTHS[m - 1]} {y}{suf}'
+
+    def text(self):
+        t = self.eol.join(self.lines)
+        return t + (self.eol if self.final_eol else '')
+
+    def model_lines(self):
+        """the lines as `for line in stream` sees them (split at \\n only, terminator removed)."""
+        t = self.text()
+        return t.split('\n')
+
+
+def render_run(rng, r: RunSpec):
+    L = []
+    mem = '%.4g' % rng.uniform(1, 900)
+    if r.banner == 'old':
+        L.append(f'Memory usage per processor = {mem} Mbytes')
+    else:
+        L.append(f'Per MPI rank memory allocation (min/avg/max) = {mem} | {mem} | {mem} Mbytes')
+    L += [rng.choice(BLANKS) for _ in range(r.gap)]
+    L.append(render_cells(rng, r.style, r.cols))
+    body = [render_cells(rng, r.style, row) for row in r.rows]
+    for pos, w in sorted(r.inside, reverse=True):
+        body.insert(pos, w)
+    if r.blank_in_body and body:
+        body.insert(rng.randint(0, len(body)), rng.choice(BLANKS))
+    L += body
+    if r.complete:
+        nst = (r.steps() or [0])
+        L.append('Loop time of %.6g on %d procs for %d steps with %d atoms'
+                 % (rng.uniform(0, 100), rng.choice([1, 4, 16]), (nst[-1] - nst[0]) if len(nst) > 1 else 0,
+                    rng.choice([4, 32, 4000])))
+        L += _noise(rng, BLANKS, 0, 1)
+        L += [p for p in POST_PERF[:2] if rng.random() < 0.8]
+        L += _noise(rng, BLANKS, 0, 1)
+        if r.minimize:
+            L += POST_MIN + _noise(rng, BLANKS, 0, 1)
+        L += breakdown_lines(rng, r.breakdown)
+        L += _noise(rng, BLANKS, 0, 1)
+        if r.breakdown != 'none-nohist':
+            L.append('Nlocal:    4 ave 4 max 4 min')
+            L += POST_HIST[:rng.choice([1, 3, 6])]
+        L += _noise(rng, POST_END + BLANKS, 0, 5)
+    return L
+
+
+def gen_log(rng, nruns=None, size='small', allow_dirty=False, allow_backward=True) -> LogSpec:
+    S = LogSpec()
+    if rng.random() < 0.9:
+        y = rng.randint(2004, 2031)
+        m = rng.randint(1, 12)
+        d = rng.randint(1, 28 if m == 2 else 30)
+        suf = rng.choice(['', '', '', ' - Update 1', ' - Update 3', '-7-g1a2b3c', ' - Development', ' – x'])
+        S.version = (d, m, y, suf)
+    if nruns is None:
+        nruns = rng.choice([0, 1, 1, 2, 2, 3, 3, 4, 5, 6])
+    L = []
+    L += _noise(rng, BLANKS, 0, 1)
+    if S.version is not None:
+        L.append(f'LAMMPS ({S.version_string})' + rng.choice(['', '', ' ']))
+    L += _noise(rng, PREAMBLE + BLANKS, 0, 8)
+    start = rng.choice([0, 0, 0, 100, 5000, 1000000])
+    prev = None
+    # one LAMMPS version per file: old banner + old timing lines, old banner + MPI breakdown, or new + new
+    era = rng.choice([('old', 'old'), ('old', 'new'), ('new', 'new'), ('new', 'new')])
+    for k in range(nruns):
+        r, dt = gen_run(rng, start, size, allow_dirty, era)
+        S.runs.append(r)
+        if r.inside:
+            S.dirty = True
+        st = r.steps()
+        # where the next run starts: continuation / restart on the grid / forward gap / new grid / backward
+        if st:
+            q = rng.random()
+            if q < 0.45:
+                start = st[-1]
+            elif q < 0.65:
+                start = rng.choice(st)
+            elif q < 0.8:
+                start = st[-1] + rng.choice([1, dt, 10 * dt])
+            elif q < 0.9:
+                start = st[0] + rng.choice([0, 1, 3, dt // 2])
+            elif allow_backward:
+                start = max(0, st[0] - rng.choice([0, dt, 3 * dt, 10 ** 6]))
+            else:
+                start = st[-1]
+    # truncation of the final block
+    if S.runs and rng.random() < 0.35:
+        S.runs[-1].complete = False
+    for r in S.runs:
+        L += _noise(rng, SETUP + BLANKS, 0, 4)
+        L += render_run(rng, r)
+    if not S.runs or S.runs[-1].complete:
+        L += _noise(rng, ['Total wall time: 0:00:01'] + (['LAMMPS (1 Jan 1999)'] if S.version else []) + BLANKS, 0, 2)
+    S.lines = L
+    S.eol = '\r\n' if rng.random() < 0.08 else '\n'
+    S.final_eol = rng.random() < 0.9
+    return S
+
+
+# ----------------------------------------------------------------------------------------
+# canonical values: every cell is an exact rational (or nan/inf/string marker) — never text of a float
+# ----------------------------------------------------------------------------------------
+import re
+
+_INT = re.compile(r'^[+-]?\d+$')
+_FLT = re.compile(r'^[+-]?(\d+\.?\d*|\.\d+)([eE][+-]?\d+)?$')
+NAN = 'nan'
+
+
+def canon_token(tok: str):
+    """printed token -> Fraction | 'nan' | 'inf' | '-inf' | ('s', text)."""
+    if _INT.match(tok):
+        return Fraction(int(tok))
+    if _FLT.match(tok):
+        return Fraction(tok)
+    low = tok.lower()
+    if low in ('nan', '-nan', '+nan'):
+        return NAN
+    if low in ('inf', '+inf', 'infinity'):
+        return 'inf'
+    if low in ('-inf', '-infinity'):
+        return '-inf'
+    return ('s', tok)
+
+
+def canon_value(v):
+    """cell of a pandas DataFrame -> same canonical domain."""
+    import numpy as np
+    if isinstance(v, str):
+        return canon_token(v)
+    if v is None:
+        return NAN
+    if isinstance(v, (bool, np.bool_)):
+        return ('s', str(v))
+    if isinstance(v, (int, np.integer)):
+        return Fraction(int(v))
+    f = float(v)
+    if math.isnan(f):
+        return NAN
+    if math.isinf(f):
+        return 'inf' if f > 0 else '-inf'
+    return Fraction(f)
+
+
+# pandas' default float parser (xstrtod) accumulates up to 17 digits and scales by powers of ten with one
+# rounding per binary digit of the exponent: at most ~12 roundings of 2^-53 relative each.
+XSTRTOD_RTOL = Fraction(16, 2 ** 53)
+DBL_MAX = Fraction(2) ** 1024
+DBL_TINY = Fraction(1, 2 ** 1022)
+
+
+def trunc17(tok: str):
+    """the decimal pandas' fast float parser actually converts: only the first 17 digit characters of the
+    mantissa (leading zeros included) are used; further integer digits only scale, further decimals are dropped."""
+    m = re.match(r'^([+-]?)(\d*)\.?(\d*)([eE][+-]?\d+)?$', tok)
+    if not m:
+        return None
+    sign, ip, fp, ex = m.groups()
+    e = int(ex[1:]) if ex else 0
+    keep_i = ip[:17]
+    e += len(ip) - len(keep_i)
+    keep_f = fp[:max(0, 17 - len(keep_i))] if len(keep_i) == len(ip) else ''
+    digits = (keep_i + keep_f) or '0'
+    v = Fraction(int(digits)) * Fraction(10) ** (e - len(keep_f))
+    return -v if sign == '-' else v
+
+
+def _near(impl: Fraction, target: Fraction) -> bool:
+    if impl == target:
+        return True
+    if abs(target) < DBL_TINY:               # subnormal / underflow region: absolute 2^-1074 steps
+        return abs(impl - target) <= Fraction(16, 2 ** 1074)
+    return abs(impl - target) <= XSTRTOD_RTOL * abs(target)
+
+
+def cell_equal(impl, model, tok=None) -> bool:
+    """impl: canon_value of what pandas holds; model: canon_token of the printed token (`tok`)."""
+    if isinstance(model, Fraction):
+        if isinstance(impl, Fraction):
+            if model.denominator == 1 and abs(model) < 2 ** 53:
+                return impl == model              # integers are read exactly
+            if _near(impl, model):
+                return True
+            t = trunc17(tok) if tok is not None else None
+            return t is not None and _near(impl, t)
+        if impl in ('inf', '-inf'):
+            return abs(model) >= DBL_MAX * (1 - Fraction(1, 2 ** 50)) and (impl == 'inf') == (model > 0)
+        return False
+    return impl == model
+
+
+def canon_table(cols, rows):
+    """pad short rows with nan (pandas fills missing trailing fields with NaN)."""
+    n = len(cols)
+    return (list(cols), [[r[k] if k < len(r) else NAN for k in range(n)] for r in rows])
+
+
+def row_equal(a, b):
+    """a: canonical impl cells; b: printed tokens (model / spec side)."""
+    return len(a) == len(b) and all(cell_equal(x, canon_token(t), t) for x, t in zip(a, b))
+
+
+def table_equal(impl, model):
+    """impl: (cols, rows of canonical values); model: (cols, rows of printed tokens)."""
+    (ci, ri), (cm_, rm) = impl, model
+    if ci != cm_ or len(ri) != len(rm):
+        return False
+    return all(row_equal(a, b) for a, b in zip(ri, rm))
+
+
+def impl_table(df):
+    cols = [str(c) for c in df.columns]
+    vals = df.to_numpy(dtype=object) if len(df.columns) else []
+    rows = [[canon_value(v) for v in row] for row in vals]
+    return canon_table(cols, rows)
+
+
+def impl_perf(df):
+    if df is None:
+        return None
+    cols = [str(c).strip() for c in df.columns]
+    rows = []
+    for idx, row in zip(df.index, df.to_numpy(dtype=object)):
+        rows.append([('s', str(idx).strip())] + [canon_value(v.strip() if isinstance(v, str) else v) for v in row])
+    return (cols, rows)
+
+
+def impl_state(log):
+    d = log.lammps_date
+    return {'version': log.lammps_version,
+            'date': None if d is None else (d.year, d.month, d.day),
+            'sims': [(impl_table(s.thermo), impl_perf(s.performance)) for s in log.simulations]}
+
+
+EXC_CLASS = {'ParserError': 'parser', 'EmptyDataError': 'parser', 'ValueError': 'value', 'IndexError': 'index',
+             'KeyError': 'key', 'AssertionError': 'assert', 'AttributeError': 'attr', 'TypeError': 'type'}
+
+
+def exc_class(e):
+    return 'err:' + EXC_CLASS.get(type(e).__name__, type(e).__name__)
+
+
+# ---- wire format -----------------------------------------------------------------------
+
+def enc(s: str) -> str:
+    out = [':']
+    for ch in s:
+        o = ord(ch)
+        if ch == '%' or o < 33 or o == 127:
+            out.append('%%%02x' % o)
+        else:
+            out.append(ch)
+    return ''.join(out)
+
+
+def dec(tok: str) -> str:
+    assert tok.startswith(':'), tok
+    return re.sub(r'%([0-9a-fA-F]{2})', lambda m: chr(int(m.group(1), 16)), tok[1:])
+
+
+class _Toks:
+    def __init__(self, line):
+        self.t = line.split(' ')
+        self.k = 0
+
+    def next(self):
+        v = self.t[self.k]
+        self.k += 1
+        return v
+
+    def done(self):
+        return self.k >= len(self.t)
+
+
+def _parse_table(T):
+    assert T.next() == 'T'
+    nc, nr = int(T.next()), int(T.next())
+    cols = [dec(T.next()) for _ in range(nc)]
+    rows = []
+    for _ in range(nr):
+        h = T.next()
+        assert h[0] == 'R'
+        rows.append([dec(T.next()) for _ in range(int(h[1:]))])
+    return canon_table(cols, rows)
+
+
+def parse_state(reply: str):
+    """`ok <state>` of the driver -> same shape as impl_state."""
+    T = _Toks(reply)
+    assert T.next() == 'ok'
+    v = T.next()
+    version = None if v == 'Vnone' else dec(v[1:])
+    d = T.next()
+    date = None if d == 'Dnone' else tuple(int(x) for x in d[1:].split('-'))
+    n = int(T.next()[1:])
+    sims = []
+    for _ in range(n):
+        tab = _parse_table(T)
+        p = T.next()
+        perf = None
+        if p == 'P1':
+            nc, nr = int(T.next()), int(T.next())
+            cols = [dec(T.next()) for _ in range(nc)]
+            rows = []
+            for _ in range(nr):
+                sec = dec(T.next())
+                rows.append([sec] + [dec(T.next()) for _ in range(nc)])
+            perf = (cols, rows)
+        sims.append((tab, perf))
+    assert T.done(), reply[:200]
+    return {'version': version, 'date': date, 'sims': sims}
+
+
+def parse_table_reply(reply: str):
+    T = _Toks(reply)
+    assert T.next() == 'ok'
+    t = _parse_table(T)
+    assert T.done()
+    return t
+
+
+def state_diff(impl, model):
+    """first difference between the two canonical states, or None."""
+    if impl['version'] != model['version']:
+        return f"version {impl['version']!r} != model {model['version']!r}"
+    if impl['date'] != model['date']:
+        return f"date {impl['date']} != model {model['date']}"
+    if len(impl['sims']) != len(model['sims']):
+        return f"{len(impl['sims'])} simulations != model {len(model['sims'])}"
+    for k, ((ti, pi), (tm, pm)) in enumerate(zip(impl['sims'], model['sims'])):
+        if ti[0] != tm[0]:
+            return f'simulation {k}: columns {ti[0]} != model {tm[0]}'
+        if not table_equal(ti, tm):
+            return f'simulation {k}: thermo rows differ: {_first_row_diff(ti, tm)}'
+        if (pi is None) != (pm is None):
+            return f'simulation {k}: performance table {"present" if pi is not None else "absent"} != model'
+        if pi is not None and not table_equal(pi, pm):
+            return f'simulation {k}: performance table differs: impl {pi} model {pm}'
+    return None
+
+
+def _show(c):
+    if isinstance(c, Fraction):
+        return str(c) if c.denominator == 1 else f'{float(c)!r}'
+    return str(c)
+
+
+def _first_row_diff(ti, tm):
+    if len(ti[1]) != len(tm[1]):
+        return f'{len(ti[1])} rows != {len(tm[1])}'
+    for k, (a, b) in enumerate(zip(ti[1], tm[1])):
+        if not row_equal(a, b):
+            return f'row {k}: {[_show(x) for x in a]} != printed {b}'
+    return '?'
+
+
+# ----------------------------------------------------------------------------------------
+# histories: Log(), read(log, append=…) in text / path / stream form, flatten(style, first, last)
+# ----------------------------------------------------------------------------------------
+
+def expect_of(S: LogSpec) -> dict:
+    """what the property says a read of this log must give (from the spec, not from any parser)."""
+    v = S.version
+    return {'version': S.version_string, 'date': None if v is None else [v[2], v[1], v[0]],
+            'runs': [{'cols': list(r.cols), 'rows': [list(x) for x in r.rows], 'complete': r.complete}
+                     for r in S.runs],
+            'dirty': S.dirty}
+
+
+def gen_history(rng, allow_dirty, size='small', allow_backward=True):
+    """-> (logs: [{'text','expect'}], ops)."""
+    nlogs = rng.choice([1, 1, 1, 2, 2, 3, 4])
+    logs = []
+    for _ in range(nlogs):
+        S = gen_log(rng, size=size, allow_dirty=allow_dirty, allow_backward=allow_backward)
+        logs.append({'text': S.text(), 'expect': expect_of(S)})
+    ops = []
+    for k in range(nlogs):
+        mode = rng.choice(['text', 'text', 'path', 'stream', 'fstream', 'bytes'])
+        if k == 0 and rng.random() < 0.5:
+            ops.append(['ctor', k, mode])
+        else:
+            ops.append(['read', k, rng.choice([None, None, True, True, False]), mode])
+        for _ in range(rng.choice([0, 0, 1, 2])):
+            a = rng.choice([None] * 8 + [0, 1, 2, -1, -2, 7])
+            b = rng.choice([None] * 8 + [1, 2, 3, -1, 9])
+            ops.append(['flatten', rng.choice(['first'] * 5 + ['last'] * 6 + ['all'] * 4 + ['bogus']), a, b])
+    if rng.random() < 0.3:      # re-read an earlier log
+        ops.append(['read', rng.randrange(nlogs), rng.choice([None, True, False]), 'text'])
+        ops.append(['flatten', rng.choice(['first', 'last', 'all']), None, None])
+    return logs, ops
+
+
+class _Files:
+    """temporary files for path / stream input."""
+
+    def __init__(self):
+        self.dir = tempfile.mkdtemp(prefix='c19_')
+        self.n = 0
+        self.open = []
+
+    def path(self, text):
+        self.n += 1
+        p = os.path.join(self.dir, f'log-{self.n}.lammps')
+        with open(p, 'wb') as f:
+            f.write(text.encode('utf-8'))
+        return p
+
+    def close(self):
+        import shutil
+        for f in self.open:
+            try:
+                f.close()
+            except Exception:
+                pass
+        shutil.rmtree(self.dir, ignore_errors=True)
+
+
+def _input(files, text, mode):
+    if mode == 'text':
+        return text
+    if mode == 'bytes':
+        return text.encode('utf-8')
+    if mode == 'path':
+        return files.path(text)
+    if mode == 'stream':
+        return io.BytesIO(text.encode('utf-8'))
+    if mode == 'fstream':
+        f = open(files.path(text), 'rb')
+        files.open.append(f)
+        return f
+    raise ValueError(mode)
+
+
+def run_impl(logs, ops, files):
+    """execute a history on the real atomman. -> list of ('state', st) | ('table', t) | ('err', cls, msg)."""
+    import atomman.lammps as lmp
+    out = []
+    log = None
+    for op in ops:
+        try:
+            if op[0] == 'ctor':
+                log = lmp.Log(_input(files, logs[op[1]]['text'], op[2]))
+                out.append(('state', impl_state(log)))
+            elif op[0] == 'read':
+                if log is None:
+                    log = lmp.Log()
+                src = _input(files, logs[op[1]]['text'], op[3])
+                if op[2] is None:
+                    log.read(src)
+                else:
+                    log.read(src, append=op[2])
+                out.append(('state', impl_state(log)))
+            elif op[0] == 'flatten':
+                if log is None:
+                    log = lmp.Log()
+                sim = log.flatten(op[1], op[2], op[3])
+                out.append(('table', impl_table(sim.thermo)))
+        except Exception as e:  # noqa
+            out.append(('err', exc_class(e), f'{type(e).__name__}: {str(e)[:200]}'))
+            if op[0] != 'flatten':      # a failed read leaves the object half-updated: stop the history
+                break
+    return out
+
+
+def model_requests(logs, ops):
+    req = ['new']
+    for op in ops:
+        if op[0] == 'ctor':
+            req.append('read 1 ' + ' '.join(enc(l) for l in logs[op[1]]['text'].split('\n')))
+        elif op[0] == 'read':
+            a = '1' if op[2] in (None, True) else '0'
+            req.append(f'read {a} ' + ' '.join(enc(l) for l in logs[op[1]]['text'].split('\n')))
+        else:
+            f = lambda x: 'none' if x is None else str(x)  # noqa
+            req.append(f'flatten {enc(op[1])} {f(op[2])} {f(op[3])}')
+    return req
+
+
+def compare_history(impl_out, replies):
+    """-> None or (op index, description). replies[0] answers `new`."""
+    for k, res in enumerate(impl_out):
+        rep = replies[k + 1]
+        if res[0] == 'err':
+            if rep != res[1]:
+                return k, f'implementation raised {res[2]} but the model answers {rep[:120]}'
+            continue
+        if rep == 'err:type' and res[0] == 'table':
+            continue        # Step cells that are not integers (junk line in the block): comparison not modelled
+        if rep.startswith('err:'):
+            return k, f'model answers {rep} but the implementation returned a result'
+        if res[0] == 'state':
+            d = state_diff(res[1], parse_state(rep))
+            if d:
+                return k, d
+        else:
+            mt = parse_table_reply(rep)
+            if res[1][0] != mt[0]:
+                return k, f'flatten columns {res[1][0]} != model {mt[0]}'
+            if not table_equal(res[1], mt):
+                return k, 'flatten rows differ: ' + _first_row_diff(res[1], mt)
+    return None
+
+
+def correspond(ctx):
+    cm.build_tree()
+    rng = ctx.rng
+    N = ctx.n(220, 4000)
+    files = _Files()
+    try:
+        hist = []
+        for it in range(N):
+            size = 'big' if it % 40 == 39 else 'small'
+            logs, ops = gen_history(rng, allow_dirty=(it % 4 == 3), size=size)
+            hist.append((logs, ops))
+        hist += [(l, o) for l, o in _malformed_histories(rng)]
+        reqs = []
+        for logs, ops in hist:
+            reqs.append(model_requests(logs, ops))
+        flat = [r for rq in reqs for r in rq]
+        replies = ctx.driver.ask_many(flat)
+        pos = 0
+        nerr = 0
+        for (logs, ops), rq in zip(hist, reqs):
+            rep = replies[pos:pos + len(rq)]
+            pos += len(rq)
+            impl_out = run_impl(logs, ops, files)
+            bad = compare_history(impl_out, rep)
+            kinds = '+'.join(sorted({o[0] for o in ops}))
+            nruns = sum(len(l['expect']['runs']) for l in logs) if all('expect' in l for l in logs) else -1
+            ctx.stats.case('history:' + kinds, [l['text'] for l in logs] + [ops], nontrivial=nruns != 0,
+                           sample={'ops': ops, 'runs': nruns, 'first_log_head': logs[0]['text'][:300]})
+            if impl_out and impl_out[-1][0] == 'err':
+                nerr += 1
+            if bad:
+                k, what = bad
+                ctx.disagree('history:' + ops[k][0], f'op {k} {ops[k]}: {what}',
+                             {'op': 'history', 'logs': logs, 'ops': ops, 'failed_op': k, 'what': what})
+        ctx.extra['histories'] = len(hist)
+        ctx.extra['histories_ending_in_error'] = nerr
+    finally:
+        files.close()
+
+
+def _malformed_histories(rng):
+    """logs outside the documented layout: model and implementation must reject alike (same error class)."""
+    B = 'Memory usage per processor = 2.5 Mbytes'
+    texts = [
+        'x\n' + B + '\n',                                            # banner is the last line
+        'Loop time of 3\n' + B + '\nStep Temp\n0 1.5\n',             # footer before header
+        B + '\nStep Temp\n0 1.5\n10 2.5 7 8\n',                      # row wider than the header
+        B + '\nStep Temp\n0 1.5\nWARNING: a b c d\n10 2\nLoop time of 1\n',
+        'LAMMPS (12 Foo 2020)\n' + B + '\nStep\n0\n',                # unknown month
+        'LAMMPS (12 Feb)\n' + B + '\nStep\n0\n',                     # no year
+        'LAMMPS (30 Feb 2020)\n' + B + '\nStep\n0\n',                # impossible day
+        'LAMMPS (x Feb 2020)\n' + B + '\nStep\n0\n',                 # day not a number
+        'LAMMPS (29 Feb 2020)\n' + B + '\nStep\n0\n',                # leap day (fine)
+        'LAMMPS (29 Feb 2100)\n' + B + '\nStep\n0\n',                # not a leap year
+        '',                                                          # empty log
+        '\n\n',
+        B + '\nTemp Pe\n1 2\n3 4\nLoop time of 1\n' + B + '\nTemp Pe\n1 2\nLoop time of 1\n',   # no Step: flatten asserts
+    ]
+    out = []
+    for t in texts:
+        ops = [['ctor', 0, 'text'], ['flatten', 'last', None, None], ['flatten', 'all', None, None]]
+        out.append(([{'text': t}], ops))
+    # flatten on an empty Log, bogus style on one and on two simulations
+    one = B + '\nStep Temp\n0 1.5\n10 2.5\nLoop time of 1\n'
+    out.append(([{'text': one}], [['flatten', 'last', None, None]]))
+    out.append(([{'text': one}], [['ctor', 0, 'text'], ['flatten', 'bogus', None, None]]))
+    out.append(([{'text': one + one}], [['ctor', 0, 'text'], ['flatten', 'bogus', None, None]]))
+    out.append(([{'text': one + one}], [['ctor', 0, 'text'], ['flatten', 'first', 2, None]]))
+    # empty (header-only) runs: NaN comparison semantics of first/last
+    hdr = B + '\nStep Temp\n'
+    for t in (hdr + 'Loop time of 1\n' + one, one + hdr + 'Loop time of 1\n' + one, one + hdr):
+        out.append(([{'text': t}], [['ctor', 0, 'text'], ['flatten', 'first', None, None],
+                                    ['flatten', 'last', None, None], ['flatten', 'all', None, None]]))
+    return out
+
+
+# ----------------------------------------------------------------------------------------
+# search: the property's clauses on the real code, judged from the run specs alone
+# ----------------------------------------------------------------------------------------
+
+def _union_cols(runs):
+    cols = []
+    for r in runs:
+        for c in r['cols']:
+            if c not in cols:
+                cols.append(c)
+    return cols
+
+
+def _row_tokens(run, k, cols):
+    """printed tokens of row k of a run laid out over the union columns (absent column -> nan)."""
+    d = dict(zip(run['cols'], run['rows'][k]))
+    return [d.get(c, 'nan') for c in cols]
+
+
+def _steps(run):
+    k = run['cols'].index('Step')
+    return [int(r[k]) for r in run['rows']]
+
+
+def flatten_clauses(style, runs, table):
+    """property clauses for flatten(style) over `runs` (each with a Step column, >= 1 row, steps strictly
+    increasing within a run). `table` = canonical implementation result. -> None or description."""
+    cols = _union_cols(runs)
+    if table[0] != cols:
+        return f'columns {table[0]} != union of the runs\' columns {cols}'
+    si = cols.index('Step')
+    if style == 'all':
+        want = [_row_tokens(r, k, cols) for r in runs for k in range(len(r['rows']))]
+        if len(table[1]) != len(want):
+            return f'{len(table[1])} rows, expected all {len(want)} printed rows'
+        for k, (a, b) in enumerate(zip(table[1], want)):
+            if not row_equal(a, b):
+                return f'row {k}: {[_show(x) for x in a]} != printed {b}'
+        return None
+    got_steps = []
+    for row in table[1]:
+        if not (isinstance(row[si], Fraction) and row[si].denominator == 1):
+            return f'Step value {row[si]} is not an integer'
+        got_steps.append(int(row[si]))
+    if len(set(got_steps)) != len(got_steps):
+        dup = [s for s in set(got_steps) if got_steps.count(s) > 1]
+        return f'timestep(s) {sorted(dup)[:5]} appear more than once'
+    allsteps = [_steps(r) for r in runs]
+    for row, s in zip(table[1], got_steps):
+        owners = [i for i, st in enumerate(allsteps) if s in st]
+        if not owners:
+            return f'timestep {s} is in no run'
+        i = owners[0] if style == 'first' else owners[-1]
+        want = _row_tokens(runs[i], allsteps[i].index(s), cols)
+        if not row_equal(row, want):
+            return (f'timestep {s}: row {[_show(x) for x in row]} is not the printed row of the '
+                    f'{"earliest" if style == "first" else "latest"} run containing it (run {i}): {want}')
+    # every timestep present, when the runs are aligned (a step of a run that lies inside the range already
+    # covered by the runs that take precedence is itself printed by one of them)
+    union = set(s for st in allsteps for s in st)
+    if style == 'first':
+        aligned = all(s in set(x for st in allsteps[:i] for x in st)
+                      for i in range(len(runs)) for s in allsteps[i]
+                      if any(s <= x for st in allsteps[:i] for x in st))
+    else:
+        aligned = all(s in set(x for st in allsteps[i + 1:] for x in st)
+                      for i in range(len(runs)) for s in allsteps[i]
+                      if any(s >= x for st in allsteps[i + 1:] for x in st))
+    if aligned and set(got_steps) != union:
+        return f'timesteps {sorted(union - set(got_steps))[:5]} are missing from the flattened table'
+    if aligned and got_steps != sorted(got_steps):
+        return 'timesteps are not in increasing order'
+    return None
+
+
+def check_history_clauses(logs, ops, impl_out):
+    """-> None or (key, description): the clauses of C19 evaluated on what the real code returned."""
+    cur = None     # expected {'version','date','runs'} after the reads so far
+    for k, (op, res) in enumerate(zip(ops, impl_out)):
+        if op[0] in ('ctor', 'read'):
+            e = logs[op[1]]['expect']
+            append = True if op[0] == 'ctor' else (op[2] is None or op[2] is True)
+            if cur is None or not append:
+                cur = {'version': None, 'date': None, 'runs': []}
+            cur = {'version': cur['version'] if cur['version'] is not None else e['version'],
+                   'date': cur['date'] if cur['version'] is not None else e['date'],
+                   'runs': cur['runs'] + e['runs']}
+            if res[0] == 'err':
+                return 'read:raises', f'op {k} {op[0]}({op[-1]} input): reading a well-formed log raised {res[2]}'
+            st = res[1]
+            if len(st['sims']) != len(cur['runs']):
+                return ('read:append' if k > 0 else 'read:runs',
+                        f'op {k}: {len(st["sims"])} simulation records, expected {len(cur["runs"])} '
+                        f'(one per run, appended after the existing ones)')
+            for j, ((tab, _), run) in enumerate(zip(st['sims'], cur['runs'])):
+                if tab[0] != run['cols']:
+                    return 'read:columns', f'op {k}: run {j}: columns {tab[0]} != printed {run["cols"]}'
+                if len(tab[1]) != len(run['rows']):
+                    kind = 'read:truncated' if not run['complete'] else 'read:rows'
+                    return kind, (f'op {k}: run {j} ({"complete" if run["complete"] else "truncated"}): '
+                                  f'{len(tab[1])} rows read, {len(run["rows"])} printed')
+                for i, (a, b) in enumerate(zip(tab[1], run['rows'])):
+                    if not row_equal(a, b):
+                        return 'read:values', (f'op {k}: run {j} row {i}: {[_show(x) for x in a]} != printed {b}')
+            if st['version'] != cur['version']:
+                return 'read:version', f'op {k}: lammps_version {st["version"]!r}, expected {cur["version"]!r}'
+            want_date = None if cur['date'] is None else tuple(cur['date'])
+            if st['date'] != want_date:
+                return 'read:date', f'op {k}: lammps_date {st["date"]}, expected {want_date}'
+        else:
+            if cur is None:
+                continue
+            runs = cur['runs'][slice(op[2], op[3])]
+            ok_in = (op[1] in ('first', 'last', 'all') and len(runs) >= 1
+                     and all('Step' in r['cols'] and len(r['rows']) >= 1 for r in runs))
+            if not ok_in:
+                continue       # outside the property's hypotheses (empty selection / no Step / empty block)
+            if res[0] == 'err':
+                return 'flatten:raises', f'op {k} flatten({op[1]!r}, {op[2]}, {op[3]}) raised {res[2]}'
+            bad = flatten_clauses(op[1], runs, res[1])
+            if bad:
+                return 'flatten:' + op[1], f'op {k} flatten({op[1]!r}, {op[2]}, {op[3]}): {bad}'
+    return None
+
+
+def search(ctx, broken):
+    cm.build_tree()
+    rng = random.Random(ctx.seed * 7919 + 19)
+    N = ctx.n(260, 3000) * (3 if broken else 1)
+    files = _Files()
+    try:
+        for it in range(N):
+            size = 'big' if it % 50 == 49 else 'small'
+            logs, ops = gen_history(rng, allow_dirty=False, size=size, allow_backward=(it % 5 == 4))
+            impl_out = run_impl(logs, ops, files)
+            bad = check_history_clauses(logs, ops, impl_out)
+            nruns = sum(len(l['expect']['runs']) for l in logs)
+            ctx.stats.case('oracle:history', [l['text'] for l in logs] + [ops], nontrivial=nruns > 0)
+            if bad:
+                key, what = bad
+                logs, ops = _shrink(logs, ops, key, files)
+                impl_out = run_impl(logs, ops, files)
+                what = (check_history_clauses(logs, ops, impl_out) or (key, what))[1]
+                ctx.violate(key, what, {'op': 'history', 'logs': logs, 'ops': ops})
+    finally:
+        files.close()
+
+
+def _shrink(logs, ops, key, files):
+    """drop trailing/irrelevant ops while the same clause still fails (keeps replays short)."""
+    def fails(o):
+        r = check_history_clauses(logs, o, run_impl(logs, o, files))
+        return r is not None and r[0] == key
+    changed = True
+    while changed and len(ops) > 1:
+        changed = False
+        for k in range(len(ops) - 1, -1, -1):
+            cand = ops[:k] + ops[k + 1:]
+            if cand and fails(cand):
+                ops = cand
+                changed = True
+                break
+    return logs, ops
+
+
+def replay(ctx, payload):
+    cm.build_tree()
+    r = payload.get('replay', {})
+    if r.get('op') != 'history' and payload.get('disagreements'):
+        r = payload['disagreements'][0]
+    if r.get('op') != 'history':
+        return search(ctx, True)
+    logs, ops = r['logs'], [list(o) for o in r['ops']]
+    files = _Files()
+    try:
+        impl_out = run_impl(logs, ops, files)
+        for op, res in zip(ops, impl_out):
+            print('replay', op, '->', res[0], (res[2] if res[0] == 'err' else ''))
+        if all('expect' in l for l in logs):
+            bad = check_history_clauses(logs, ops, impl_out)
+            if bad:
+                ctx.violate(bad[0], bad[1], r)
+        if ctx.driver is not None:
+            rep = [ctx.driver.ask(q) for q in model_requests(logs, ops)]
+            d = compare_history(impl_out, rep)
+            if d:
+                ctx.disagree('history:' + ops[d[0]][0], f'op {d[0]} {ops[d[0]]}: {d[1]}', r)
+    finally:
+        files.close()
